@@ -1,14 +1,176 @@
-"""Per-property check definitions: which functions / lemmas are under deductive contract, which bounded
-stand-ins run, and the level claimed.  Each function takes a core.Run and returns (level, explanation)."""
+"""Per-property check definitions: which functions / lemmas are under deductive contract (engine A), which bounded
+stand-ins run, the level claimed.  Each entry is a function taking a core.Run and returning (level, explanation)."""
 U = 'pyclifford/utils.py::'
+
+# every kernel that currently has a discharged contract (their frame.* obligations are the C17 frame conditions)
+KERNELS = [U + f for f in ('acq', 'ipow', 'p0', 'ps0', 'acq_mat', 'pauli_tokenize', 'pauli_combine', 'pauli_transform',
+                           'clifford_rotate', 'clifford_rotate_signless', 'map_to_state', 'state_to_map', 'front',
+                           'pauli_is_onsite', 'stabilizer_expect')]
+
+
+def _b():
+    from . import bounded
+    return bounded
+
+
+def q(run, quick, thorough):
+    return quick if run.tier == 'quick' else thorough
 
 
 def C01(run):
-    run.deductive(keys=[U + 'acq', U + 'ipow', U + 'p0', U + 'ps0', U + 'acq_mat'],
-                  lemmas=['acq_is_anticount'])
-    from . import bounded
-    run.bounded_check('c01_products', bounded.c01_products, Nmax=2 if run.tier == 'quick' else 3)
-    return 'proof', 'kernel contracts of the Pauli product discharged for all N'
+    run.deductive(keys=[U + 'acq', U + 'ipow', U + 'p0', U + 'ps0', U + 'acq_mat'], lemmas=['acq_is_anticount'])
+    run.bounded_check('c01_products', _b().c01_products, Nmax=q(run, 2, 3))
+    return 'proof', ('deductive (all N): acq/ipow/p0/ps0/acq_mat equal the oracle spec functions built from the 2x2 matrices '
+                     '(AntiCount parity, IpowSum mod 4); bounded: Pauli.__matmul__, chains, polynomial products against dense matrices')
 
 
-PROPS = {'C01': C01}
+def C02(run):
+    run.deductive(keys=[U + 'clifford_rotate', U + 'clifford_rotate_signless', U + 'acq', U + 'ipow'], lemmas=[])
+    run.bounded_check('c02_rotation', _b().c02_rotation, Nmax=q(run, 2, 3))
+    return 'other', ('deductive (all N, all L): clifford_rotate leaves commuting rows unchanged and replaces anticommuting rows by '
+                     'i*P*G with the exact phase, modifies only gs/ps; bounded: rotate_by on every receiver kind, all masks, '
+                     'undo / four-fold identities, clifford_rotation_map against U^dagger P U')
+
+
+def C03(run):
+    run.deductive(keys=[U + 'pauli_combine', U + 'pauli_transform', U + 'ps0', U + 'ipow'], lemmas=['ipowsum_ext'])
+    run.bounded_check('c03_transform', _b().c03_transform, Nmax=q(run, 2, 3), count=q(run, 25, 120))
+    return 'other', ('deductive (all N): pauli_combine = ordered product (OrdG/OrdP), pauli_transform = homomorphic extension with the x.z '
+                     'correction; bounded: homomorphism / unitarity, masks = embeddings, rotation map = rotation, against dense matrices')
+
+
+def C04(run):
+    run.deductive(keys=[U + 'pauli_transform', U + 'pauli_combine'], lemmas=[])
+    run.bounded_check('c04_group', _b().c04_group, Nmax=q(run, 2, 3), count=q(run, 20, 80))
+    return 'other', ('group laws bounded (N=1 exhaustive over all 24 maps, sampled beyond); compose is pauli_transform whose '
+                     'functional contract is deductive; z2inv exhaustive up to 3x3')
+
+
+def C05(run):
+    run.deductive(keys=[U + 'map_to_state', U + 'clifford_rotate'], lemmas=[])
+    run.bounded_check('c05_histories', _b().c05_histories, Nmax=3, walks=q(run, 45, 400), steps=q(run, 10, 25))
+    run.bounded_check('c06_measure', _b().c06_measure, Nmax=2, count=q(run, 25, 200), reps=q(run, 2, 4))
+    return 'other', ('bounded: random histories from every constructor with the tableau invariant and dense validity checked after every '
+                     'public call; per-operation check for all N=1 tableaux; deductive part so far: row permutation of map_to_state and the '
+                     'row-level contract of clifford_rotate')
+
+
+def C06(run):
+    run.deductive(keys=[U + 'stabilizer_expect'], lemmas=[])
+    run.bounded_check('c06_measure', _b().c06_measure, Nmax=q(run, 2, 3), count=q(run, 40, 150), reps=q(run, 3, 5))
+    return 'other', ('bounded: Born rule, joint log2-probability, projection postulate and repeatability against dense matrices: all '
+                     'tableaux/ranks/signed observables for N=1, random tableaux x all ranks x commuting lists beyond')
+
+
+def C07(run):
+    run.deductive(keys=[U + 'stabilizer_expect', U + 'acq', U + 'ipow'], lemmas=['ipowsum_ext'])
+    run.bounded_check('c07_expect', _b().c07_expect, Nmax=q(run, 2, 3), count=q(run, 40, 120))
+    return 'other', ('deductive (all N): stabilizer_expect returns 0 iff a row of index < N+r anticommutes, otherwise the sign of the ordered '
+                     'product of the destabilizer-selected active stabilizers, no side effects; bounded: identification with Tr(rho P), '
+                     'polynomials with phases, overlaps, bit-string probabilities')
+
+
+def C08(run):
+    run.bounded_check('c08_entropy', _b().c08_entropy, Nmax=q(run, 3, 4), count=q(run, 25, 60))
+    return 'other', 'bounded: entropy against the dense von Neumann entropy of the reduced density matrix for all regions, ranks, both argument forms'
+
+
+def C09(run):
+    run.bounded_check('c09_circuits', _b().c09_circuits, Nmax=3, programs=q(run, 40, 300), maxlen=q(run, 5, 8))
+    return 'other', 'bounded: random gate programs in all 3x2x3 configurations against gate-by-gate application; locality of every gate'
+
+
+def C10(run):
+    run.bounded_check('c10_inverse', _b().c10_inverse, Nmax=3, programs=q(run, 40, 300), maxlen=q(run, 5, 8))
+    return 'other', 'bounded: backward/forward round trips of gates, layers and circuits (compiled or not) on Pauli lists and states with rank'
+
+
+def C11(run):
+    run.bounded_check('c11_named', _b().c11_named, Nmax=q(run, 3, 4))
+    return 'other', ('the gate tables are finite: all named gates, both CNOT orientations and C(0..23) are checked completely (exhaustive) '
+                     'against the textbook images, closure under compose/inverse, rejection of bad indices; placements N <= 3/4')
+
+
+def C12(run):
+    run.deductive(keys=[U + 'map_to_state', U + 'state_to_map'], lemmas=[])
+    run.bounded_check('c12_states', _b().c12_states, Nmax=q(run, 3, 3), count=q(run, 20, 80))
+    return 'other', ('deductive (all N): map_to_state / state_to_map are the exact row and phase permutations (Z-images -> stabilizers, '
+                     'X-images -> destabilizers); bounded: constructors, to_state/to_map round trip, to_qutip, stabilizer_state against dense matrices')
+
+
+def C13(run):
+    from . import torchconf
+    run.bounded_check('c13_torch', torchconf.c13_torch, Nmax=q(run, 2, 2), count=q(run, 8, 30))
+    return 'other', 'bounded conformance only (no VC generation for TorchScript / float tensors): every shared function on the same inputs, N <= 2'
+
+
+def C14(run):
+    run.bounded_check('c14_trajectory', _b().c14_trajectory, Nmax=3, programs=q(run, 40, 250))
+    return 'other', ('bounded: measurement layers and circuits with mid-circuit measurements against the dense trajectory in program order, '
+                     'backward = adjoint of the recorded trajectory, impossible records rejected, post-selection of all signed strings')
+
+
+def C15(run):
+    run.bounded_check('c15_algebra', _b().c15_algebra, Nmax=q(run, 2, 3), trees=q(run, 200, 1500))
+    return 'other', 'bounded: random expression trees over all operand kinds against dense matrices, reduce, trace, to_qutip exports, linearity'
+
+
+def C16(run):
+    run.bounded_check('c16_random', _b().c16_random, Nmax=3, samples=q(run, 25, 150), n1=q(run, 4800, 24000), n2=q(run, 36000, 144000))
+    return 'other', ('bounded: validity of every sampler; uniformity by chi-square with an 8-sigma threshold on N=1 (24 elements) and N=2 '
+                     '(720 symplectic classes); resampling of map-less gates; fairness of sign bits and coins statistically (not a contract)')
+
+
+def C17(run):
+    run.deductive(keys=KERNELS, lemmas=['ipowsum_ext', 'acq_is_anticount'])
+    run.bounded_check('c17_copies', _b().c17_copies, Nmax=3, rounds=q(run, 20, 120))
+    return 'other', ('deductive (all N): the frame condition (modifies clause) of every kernel under contract: arguments not listed are '
+                     'unchanged, results are fresh or exactly the in-place arguments; bounded: copy of every object kind, query methods with '
+                     'before/after snapshots')
+
+
+def C18(run):
+    run.deductive(keys=[U + 'front', U + 'pauli_is_onsite'], lemmas=[])
+    run.bounded_check('c18_diagonalize', _b().c18_diagonalize, Nmax=q(run, 3, 4), hams=q(run, 30, 200))
+    return 'other', ('deductive: front / pauli_is_onsite; bounded: diagonalize for all strings, signs, targets, causal on/off (N <= 3/4), '
+                     'states, SBRG on commuting (exact) and arbitrary (diagonal form) Hamiltonians')
+
+
+def C19(run):
+    run.deductive(keys=[U + 'pauli_combine'], lemmas=['ipowsum_ext'])
+    run.bounded_check('c19_sampling', _b().c19_sampling, Nmax=3, count=q(run, 15, 80))
+    return 'other', ('deductive: sample() rows are ordered products (pauli_combine contract); bounded: membership with sign, density-matrix '
+                     'expansion, classical-shadow snapshots')
+
+
+def C20(run):
+    run.deductive(keys=[U + 'pauli_tokenize'], lemmas=[])
+    run.bounded_check('c20_formats', _b().c20_formats, Nmax=q(run, 3, 4))
+    return 'other', ('deductive (all N, L): pauli_tokenize produces exactly the documented token codes; bounded and exhaustive per N: all '
+                     'strings x phases x accepted formats, print/parse and tokenize/parse round trips, indexing, negation, unit multiples')
+
+
+PROPS = {k: v for k, v in globals().items() if len(k) == 3 and k[0] == 'C' and k[1:].isdigit()}
+
+TECHNIQUE = {
+    'C01': 'contract-based deductive verification of the kernels (own ast->VC generator, z3); bounded dense-matrix stand-in for the class layer',
+    'C02': 'deductive contract on clifford_rotate (z3); bounded dense-matrix stand-in for rotate_by/masks',
+    'C03': 'deductive contracts on pauli_combine/pauli_transform (z3); bounded dense-matrix stand-in for homomorphism/embedding',
+    'C04': 'bounded enumeration of the Clifford group (N=1 exhaustive); deductive functional contract of compose',
+    'C05': 'bounded random histories with dense validity oracle; deductive row-level contracts of map_to_state/clifford_rotate',
+    'C06': 'bounded dense-matrix Born-rule/projection oracle over enumerated tableaux',
+    'C07': 'deductive contract on stabilizer_expect (z3); bounded dense trace oracle',
+    'C08': 'bounded dense von Neumann entropy oracle',
+    'C09': 'bounded program enumeration against gate-by-gate application',
+    'C10': 'bounded program enumeration, forward/backward round trips',
+    'C11': 'exhaustive check of the finite gate tables against textbook images',
+    'C12': 'deductive contracts on map_to_state/state_to_map (z3); bounded dense oracle for constructors',
+    'C13': 'bounded conformance testing torch vs numpy port',
+    'C14': 'bounded dense trajectory oracle for mid-circuit measurement and post-selection',
+    'C15': 'bounded dense-matrix oracle over random expression trees',
+    'C16': 'bounded validity checks and chi-square counting on finite groups',
+    'C17': 'deductive frame conditions (modifies clauses) of all kernels under contract (z3); bounded snapshot checks for the class layer',
+    'C18': 'deductive contracts on front/pauli_is_onsite; bounded exhaustive diagonalisation check',
+    'C19': 'deductive contract on pauli_combine; bounded membership/expansion/shadow checks',
+    'C20': 'deductive contract on pauli_tokenize (z3); exhaustive parse/print round trips per N',
+}
